@@ -87,7 +87,8 @@ class Gen(object):
             # a post_randomize probe is only reached when the solve succeeds
             tags_ok = tags + ([t[1] for t in post] if not unsat else [])
             fault = rnd.choice(tags_ok) if tags_ok and rnd.random() < 0.45 else None
-            calls.append({"api": api, "obj": obj, "pre": pre, "post": post, "body": body, "unsat": unsat, "fault": fault})
+            calls.append({"api": api, "obj": obj, "pre": pre, "post": post, "body": body, "unsat": unsat, "fault": fault,
+                          "cg_fault": rnd.random() < 0.15})
         return {"classes": classes, "class_order": order, "calls": calls, "seed": rnd.randint(0, 10 ** 6)}
 
     def tags(self, items):
@@ -228,6 +229,9 @@ def run(ctx):
                 elif any(x is not None and x["overrides"] for x in rec["left"]):
                     what = "after call %d %s (ended %s) a temporary rewrite of the constraint tree is still installed: %s" % (
                         k, call["api"], rec["raised"], rec["left"])
+                elif any(x is not None and x.get("list_mismatch") for x in rec["left"]):
+                    what = "after call %d %s (ended %s) a random-size list holds element models beyond its size (the extension of the call " \
+                           "was not taken back): %s" % (k, call["api"], rec["raised"], rec["left"])
                 elif any(x is not None and x["vars"] for x in rec["left"]):
                     what = "after call %d %s (ended %s) %s field(s) still hold a solver variable" % (k, call["api"], rec["raised"], rec["left"])
                 elif rec["raised"] is not None and str(rec["raised"]).startswith("exc:"):
